@@ -6,7 +6,7 @@
     default namespace, inter-element white space, comments, processing instructions, xml
     declaration, MathJax class attributes, quote style), every single rewrite and every pair.
 (C) unknown entity names must be an error."""
-import html.entities, itertools, json, re
+import html.entities, itertools, json, os, re
 import unicodedata as ud
 from xml.sax.saxutils import escape
 from common import Run, norm_ids, is_ok, is_err, val, short, diffshow
@@ -19,7 +19,7 @@ XML_PREDEF = {"amp": "&", "lt": "<", "gt": ">", "quot": '"', "apos": "'"}
 def entity_table():
     """name -> string as src/entities.in has it (read at run time)."""
     out = {}
-    for line in open("/repo/src/entities.in", encoding="utf-8"):
+    for line in open(os.path.join(mcx.SRC, "entities.in"), encoding="utf-8"):
         m = re.match(r'\s*"([^"]+)"\s*=>\s*"(.*)",?\s*$', line)
         if not m:
             continue
